@@ -1,6 +1,6 @@
 (* Uniform executable entry point of the model for the correspondence check:
    run_case tag args = the observable outputs the implementation must produce for the same case. *)
-From DDSV Require Import base.Machine model.View model.Layout model.DecoderSM model.EncoderSM model.Split model.DecodeScript model.Formats gen.GenFormats spec.SpecLayout model.HeaderTypes gen.GenHeader model.Header model.Numeric model.BCdec model.BC7 model.Float model.Convert model.Uncomp model.Crop model.RectPath model.PixelPath model.BiPlanarPath model.EncChunks model.Encode model.BC6 model.BCF32.
+From DDSV Require Import base.Machine model.View model.Layout model.DecoderSM model.EncoderSM model.Split model.DecodeScript model.Formats gen.GenFormats spec.SpecLayout model.HeaderTypes gen.GenHeader model.Header model.Numeric model.BCdec model.BC7 model.Float model.Convert model.Uncomp model.Crop model.RectPath model.PixelPath model.BiPlanarPath model.EncChunks model.EncBlocks model.Encode model.BC6 model.BCF32.
 
 Local Open Scope Z_scope.
 
@@ -418,6 +418,16 @@ Definition run_c54 (a : list Z) : list Z :=
   | _ => [-99]
   end.
 
+(* ---- C13 block gathering: [w; h] -> for every 4x4 block the pixel numbers (1-based, row-major) at its 16 positions *)
+Definition run_c55 (a : list Z) : list Z :=
+  match a with
+  | [w; h] =>
+      let n := Z.to_nat in
+      let img := map (fun y => map (fun x => S (y * n w + x)) (seq 0 (n w))) (seq 0 (n h)) in
+      flat_map (fun blk => 17 :: 7 :: map Z.of_nat (concat blk)) (EncBlocks.image_blocks nat 4 4 0%nat (n w) img)
+  | _ => [-99]
+  end.
+
 (* ---- C12 uncompressed encode: [fmt; channels; prec; values...] -> bytes *)
 Definition run_c12 (a : list Z) : list Z :=
   match a with
@@ -452,6 +462,7 @@ Definition run_case (tag : Z) (args : list Z) : list Z :=
   | 52 => run_c52 args
   | 53 => run_c53 args
   | 54 => run_c54 args
+  | 55 => run_c55 args
   | 12 => run_c12 args
   | 121 => run_c121 args
   | 40 => run_c40 args
